@@ -949,6 +949,9 @@ class OrthoBase(Base):
             okr = all(t.ranks[k] <= mrs[k] for k in bonds if mrs[k] != np.inf)
             self.ck('rank_bound', okr, [s], {'max_ranks': [x if x != np.inf else 'inf' for x in mrs], 'ranks': list(t.ranks), 'bonds': bonds}, tags, prop='C04')
             self.ck('ranks_not_increased', all(a <= b for a, b in zip(t.ranks, s.ranks)), [s], {'old': s.ranks, 'new': list(t.ranks)}, tags, prop='C04')
+            if Dold.size and not np.any(Dold):
+                # the exactly-zero tensor: every error bound of the statement is 0 for it, whatever threshold or rank cap is requested
+                self.ck('zero_tensor_stays_zero', Dnew.shape == Dold.shape and not np.any(Dnew), [s], {'ranks': list(t.ranks)}, tags, prop='C04')
             if thr == 0 and v.get('quasi_optimal_applicable', lambda snap: False)(s):
                 sv = unfolding_svals(Dold, d)
                 bound2 = 0.0
@@ -1091,6 +1094,8 @@ class Init(probe.Contract):
             b2 = sum(float(np.sum(sv[k - 1][t.ranks[k]:] ** 2)) for k in range(1, d))
             c.check(self.api, 'quasi_optimal_error', err <= (1 + 1e-8) * np.sqrt(b2) + 1e-10 * nrm, tags,
                     {'err': err, 'bound': float(np.sqrt(b2)), 'ranks': list(t.ranks), 'max_rank': mr}, prop='C04')
+        if nrm == 0:
+            c.check(self.api, 'zero_tensor_stays_zero', err == 0, tags, {'err': err, 'ranks': list(t.ranks), 'threshold': thr, 'max_rank': str(mr)}, prop='C04')
         if thr != 0 and mr == np.inf and nrm > 0:
             disc = 0
             for k in range(d - 1):
